@@ -381,6 +381,17 @@ fn main() {
     }
     if let Some(p) = cli.replay {
         let v = trv_core::load_replay(&p);
+        if v["config"].as_str().unwrap_or("").starts_with("check timeouts") {
+            let mut rep = Report::new("C18", Tier::Quick, "model_checking");
+            timeout_grid(&mut rep);
+            let kind = v["kind"].as_str().unwrap_or("");
+            if rep.violations.iter().any(|x| x.kind == kind) {
+                println!("VIOLATION property=C18 replay={p}");
+                std::process::exit(1);
+            }
+            println!("replay: the recorded violation does not occur on the current tree");
+            std::process::exit(0);
+        }
         if v["config"].as_str().unwrap_or("").starts_with("selection") {
             let mut rep = Report::new("C18", Tier::Quick, "model_checking");
             selection_grid(&mut rep, 3, true);
